@@ -147,7 +147,7 @@ static void graph_target(Tape& t, Ctx& c)
   {
     bool dflt = t.flag(1, 12); int how = t.range(0, 2);
     Adj A = dflt ? Adj() : gen_adj(t, 40); if(dflt) A.cls = "default-empty";
-    if(A.nidx() == 0 && c.excl("c19-sorted-no-indices")) { dflt = false; A.nd = std::max(A.nd, 1); A.ni = std::max(A.ni, 1); A.a.resize((size_t)A.nd); A.a[0].push_back(0); A.cls += "+steered"; }
+    if(A.nidx() == 0 && c.excl("c19-sorted-no-indices")) { dflt = false; A.nd = std::max(A.nd, 1); A.ni = std::max(A.ni, 1); A.a.resize((size_t)A.nd); A.a[0].push_back(0); c.label("steered:one-index-added"); }
     c.op = "sort_indices"; c.desc.set("ctor", how); c.desc.set("A", A.json()); label_adj(c, A, "adj");
     bool already = is_sorted_lists(A.a); c.label(already ? "feature:already-sorted" : "feature:unsorted");
     c.nontrivial = !already;
@@ -217,7 +217,7 @@ static void graph_target(Tape& t, Ctx& c)
     Adj A = dflt ? Adj() : gen_adj(t, 40);
     // exclusion c19-serialize-default-graph: serialize() of a default-constructed Graph writes _domain_ptr.size()-1 = 2^64-1
     // into the header (known finding); steer to the array-constructed empty graph.
-    if(dflt && c.excl("c19-serialize-default-graph")) dflt = false;
+    if(dflt && c.excl("c19-serialize-default-graph")) { dflt = false; A.cls = "empty-by-array-ctor"; c.label("steered:array-ctor-empty"); }
     if(dflt) A.cls = "default-empty";
     c.op = "serialize"; c.desc.set("ctor", how); c.desc.set("default", dflt); c.desc.set("A", A.json()); label_adj(c, A, "adj"); if(dflt) c.label("src:default");
     c.nontrivial = A.nidx() >= 2;
@@ -477,13 +477,13 @@ static void cmk_target(Tape& t, Ctx& c)
   CmkSim sim = cmk_sim(A.a, rtype);
   // exclusion c19-cmk-maxdeg-isolated: RootType::maximum_degree finds no root when every remaining node has degree 0
   // (known finding): give the degree-0 nodes a self-loop (they stay isolated, degree becomes 1).
-  if(sim.maxdeg_stuck && c.excl("c19-cmk-maxdeg-isolated")) { for(size_t i = 0; i < n; ++i) if(A.a[i].empty()) A.a[i].push_back(Index(i)); A.cls += "+steered-selfloops"; sim = cmk_sim(A.a, rtype); }
+  if(sim.maxdeg_stuck && c.excl("c19-cmk-maxdeg-isolated")) { for(size_t i = 0; i < n; ++i) if(A.a[i].empty()) A.a[i].push_back(Index(i)); c.label("steered:selfloops"); sim = cmk_sim(A.a, rtype); }
   // exclusion c19-cmk-mindeg-multigraph: RootType::minimum_degree finds no root when every remaining node has degree >= n+1
   // (only possible with repeated adjacencies; known finding): remove the repetitions.
-  if(sim.mindeg_stuck && c.excl("c19-cmk-mindeg-multigraph")) { A.a = m_injectify(A.a); A.cls += "+steered-injective"; sim = cmk_sim(A.a, rtype); }
+  if(sim.mindeg_stuck && c.excl("c19-cmk-mindeg-multigraph")) { A.a = m_injectify(A.a); c.label("steered:injective"); sim = cmk_sim(A.a, rtype); }
   // exclusion c19-cmk-wide-last-level: a component whose last BFS level has >= 2 nodes followed by another component
   // derails the position counter (known finding): chain all nodes so that one root reaches everything.
-  if(sim.wide_then_more && c.excl("c19-cmk-wide-last-level")) { for(size_t i = 0; i + 1 < n; ++i) { if(std::find(A.a[i].begin(), A.a[i].end(), Index(i + 1)) == A.a[i].end()) A.a[i].push_back(Index(i + 1)); if(std::find(A.a[i + 1].begin(), A.a[i + 1].end(), Index(i)) == A.a[i + 1].end()) A.a[i + 1].push_back(Index(i)); } A.cls += "+steered-chained"; sim = cmk_sim(A.a, rtype); }
+  if(sim.wide_then_more && c.excl("c19-cmk-wide-last-level")) { for(size_t i = 0; i + 1 < n; ++i) { if(std::find(A.a[i].begin(), A.a[i].end(), Index(i + 1)) == A.a[i].end()) A.a[i].push_back(Index(i + 1)); if(std::find(A.a[i + 1].begin(), A.a[i + 1].end(), Index(i)) == A.a[i + 1].end()) A.a[i + 1].push_back(Index(i)); } c.label("steered:chained"); sim = cmk_sim(A.a, rtype); }
   c.op = std::string("cmk:") + rn[rtype];
   c.desc.set("root", rn[rtype]); c.desc.set("sort", sn[stype]); c.desc.set("reverse", reverse); c.desc.set("ctor", how); c.desc.set("A", A.json());
   c.label(std::string("root:") + rn[rtype]); c.label(std::string("sort:") + sn[stype]); c.label(reverse ? "reverse:yes" : "reverse:no");
